@@ -380,6 +380,9 @@ impl GraphInline {
             GraphInline::Link(url, title, link_type, inlines) => {
                 if self.is_ref() {
                     let new_inlines = match *link_type {
+                        // (a link that shows an image - a thumbnail that leads to the note -
+                        // keeps it: the title would replace the image and its destination)
+                        LinkType::Regular if has_image(inlines) => inlines.clone(),
                         LinkType::Regular => context
                             .get_ref_title(&Key::from_file_name(url))
                             .map(|title| vec![GraphInline::Str(title)])
@@ -476,6 +479,20 @@ fn protect_trailing_hashes(text: &str) -> String {
     } else {
         text.to_string()
     }
+}
+
+fn has_image(inlines: &GraphInlines) -> bool {
+    inlines.iter().any(|inline| match inline {
+        GraphInline::Image(_, _, _) => true,
+        GraphInline::Emph(inlines)
+        | GraphInline::Strong(inlines)
+        | GraphInline::Strikeout(inlines)
+        | GraphInline::Underline(inlines)
+        | GraphInline::Superscript(inlines)
+        | GraphInline::Subscript(inlines)
+        | GraphInline::SmallCaps(inlines) => has_image(inlines),
+        _ => false,
+    })
 }
 
 fn escape_brackets(inlines: &GraphInlines) -> GraphInlines {
